@@ -5,11 +5,23 @@ import core, gen
 from core import frac, unfrac
 
 
-def impl_decode(text):
+def impl_decode(text, history=0):
     from simfile.notes import NoteData
     try:
         nd = NoteData(text)
-        return {"ok": {"cols": nd.columns, "notes": [gen.jnote(n) for n in nd]}, "str": str(nd)}
+        out = {"ok": {"cols": nd.columns, "notes": [gen.jnote(n) for n in nd]}, "str": str(nd)}
+        if history:
+            # the same text through objects with a history: an iteration abandoned part-way, a second pass, a copy
+            nd2 = NoteData(text)
+            it = iter(nd2)
+            for _ in range(history):
+                next(it, None)
+            del it
+            out["after_partial"] = [gen.jnote(n) for n in nd2]
+            out["second_pass"] = [gen.jnote(n) for n in nd2]
+            out["copy"] = [gen.jnote(n) for n in NoteData(nd2)]
+            out["copy_str"] = str(NoteData(nd2))
+        return out
     except Exception as e:
         return {"err": core.exc_name(e)}
 
@@ -29,6 +41,12 @@ def run(ctx):
         small = rng.random() < .6
         charts.append(gen.dchart(rng, max_cols=16, max_players=3, max_measures=3 if small else 5,
                                  density=rng.choice([.05, .2, .5]), big_rows=not small or rng.random() < .2))
+    for rows_n in [256, 384, 1000][: ctx.scale(2, 3)] * ctx.scale(1, 2):
+        c = gen.dchart(rng, max_cols=4, max_players=1, max_measures=1, density=.5, big_rows=False, keysounds=False, deco=False)
+        proto = c[0][0]["rows"][0]
+        c[0][0]["rows"] = [dict(proto, cells=[[rng.choice("1234M"), None] if rng.random() < .5 else ["0", None] for _ in proto["cells"]], eol="\n")
+                           for _ in range(rows_n)]
+        charts.append(c)
     rend = ctx.lean.eval_sharded([{"op": "spec.render", "chart": c} for c in charts])
     specs = ctx.lean.eval_sharded([{"op": "spec.notes_of", "chart": c} for c in charts])
     texts = list(rend)
@@ -36,7 +54,7 @@ def run(ctx):
     for c, text, spec, model in zip(charts, texts, specs, models):
         if not spec["wf"]:
             res.count("generator-produced-illformed"); continue
-        impl = impl_decode(text)
+        impl = impl_decode(text, history=rng.choice([0, 1, 1, 2, 5]))
         nontriv = len(spec["notes"]) > 0
         case = {"text": text}
         res.case(case, nontrivial=nontriv)
@@ -52,6 +70,26 @@ def run(ctx):
             continue
         if impl["str"] != text:
             res.violation(case, "str(NoteData) is not the original text")
+        if "after_partial" in impl:
+            res.count("iteration_histories")
+            for k in ("after_partial", "second_pass", "copy"):
+                if impl[k] != spec["notes"]:
+                    res.violation(case, "iterating the same NoteData again (%s) gives different notes" % k,
+                                  impl=_first_diff(impl[k], spec["notes"])); break
+            if impl["copy_str"] != text:
+                res.violation(case, "NoteData(NoteData(text)) has a different string form")
+        # every comparison operator on neighbouring decoded notes (dense measures put neighbours less than a tick apart)
+        try:
+            from simfile.notes import NoteData as _ND
+            dn = list(_ND(text))
+            for a, b in zip(dn, dn[1:]):
+                if not (a < b and b > a and a <= b and b >= a and not (b < a) and not (a > b) and not (b <= a) and not (a >= b)):
+                    res.violation(case, "comparison operators disagree with the position order on neighbouring decoded notes",
+                                  impl=[gen.jnote(a), gen.jnote(b)]); break
+            if dn and sorted(reversed(dn)) != dn:
+                res.violation(case, "sorted() of the decoded notes is not the decoded order")
+        except Exception as e:
+            res.violation(case, "comparison raised", impl=core.exc_name(e))
         # strictly increasing (player, beat, column)
         keys = [(n[3], unfrac(n[0]), n[1]) for n in impl["ok"]["notes"]]
         if any(not a < b for a, b in zip(keys, keys[1:])):
@@ -92,6 +130,13 @@ def run(ctx):
                          note_type=rng.choice(list(NoteType)), player=rng.randrange(0, 3),
                          keysound_index=rng.choice([None, 1, 7])))
     pairs = [(a, b) for a in pool for b in pool][: ctx.scale(3000, 40000)]
+    for _ in range(ctx.scale(300, 3000)):
+        d = rng.choice([64, 96, 192, 256, 384, 768, 1000, 7, 5])
+        k = rng.randrange(0, 4 * d)
+        pl = rng.randrange(0, 2)
+        a = Note(beat=Beat(Fraction(k, d)), column=rng.randrange(1, 4), note_type=NoteType.TAP, player=pl)
+        b = Note(beat=Beat(Fraction(k + rng.choice([1, 1, 2]), d)), column=rng.randrange(0, a.column), note_type=NoteType.TAP, player=pl)
+        pairs.append((a, b)); pairs.append((b, a))
     cmps = ctx.lean.eval_sharded([{"op": "notes.cmp", "a": gen.jnote(a), "b": gen.jnote(b)} for a, b in pairs])
     for (a, b), m in zip(pairs, cmps):
         ka, kb = (a.player, a.beat, a.column), (b.player, b.beat, b.column)
